@@ -98,7 +98,8 @@ func oracle(r *kit.R, b []byte, cert *x509.Certificate) (p *certgen.Parts, selfI
 
 // Case: a certificate created by the library, optionally transformed.
 //
-//	Mode 0 self-signed; 1 self-issued but signed by ParentKey; 2 issued by a parent named Parent (key ParentKey)
+//	Mode 0 self-signed; 1 self-issued but signed by ParentKey; 2 issued by a parent named Parent (key ParentKey);
+//	3 signed by its OWN key but with an issuer name that is a near-variant of the subject (see IssuerVariant)
 //	Version: -2 keep the created TBS; else rebuild the TBS with this version (-1: field absent) and re-sign with std crypto
 //	Flip: XOR one byte (region 1: inside the signature value, 2: anywhere, 3: inside the subject name, 4: length octet of the [0] version wrapper)
 type Case struct {
@@ -111,9 +112,68 @@ type Case struct {
 	FlipRegion int          `json:"flip_region"`
 	FlipOff    int          `json:"flip_off"`
 	FlipXor    byte         `json:"flip_xor"`
+	// IssuerVariant (mode 3 only): how the issuer of a certificate signed by its OWN key is
+	// made to differ from the subject: 1 = the string type of the first attribute value is
+	// switched between PrintableString and UTF8String (same text, other DER), 2 = the case of
+	// the first ASCII letter of the first attribute value is toggled.
+	IssuerVariant int `json:"issuer_variant,omitempty"`
 }
 
-const rule = "certificates created by CreateCertificate from the C04 template generator (pool keys RSA/ECDSA/Ed25519, requested algorithms incl. MD5/SHA1/PSS) in three modes (self-signed, self-issued but signed by another key, issued by a parent), optionally re-assembled with another version field (absent, 0..3, 100) and re-signed with the standard library, optionally with one byte flipped (in the signature, in the subject, anywhere); every variant ParseCertificate accepts is compared with an independent TLV walk + std hashes + std signature verification. Non-trivial: self-issued-but-not-self-signed, a transformed variant, or a non-RSA-2048 key; distinct by case hash"
+// nearVariantIssuer rewrites, inside a copy of the TBS bytes, the first attribute value of
+// the issuer name (same length, so every enclosing length stays valid).  ok is false when the
+// name has no value the requested variant applies to.
+func nearVariantIssuer(p *certgen.Parts, variant int) (tbs []byte, ok bool) {
+	tbs = append([]byte{}, p.TBS.Full...)
+	base := cap(p.TBS.Full)
+	rdns, err := der.Children(p.Issuer.Body)
+	if err != nil {
+		return nil, false
+	}
+	for _, rdn := range rdns {
+		atvs, err := der.Children(rdn.Body)
+		if err != nil {
+			return nil, false
+		}
+		for _, atv := range atvs {
+			kv, err := der.Children(atv.Body)
+			if err != nil || len(kv) != 2 {
+				continue
+			}
+			v := kv[1]
+			off := base - cap(v.Full) // offset of the value's identifier octet inside the TBS
+			if off < 0 || off >= len(tbs) || tbs[off] != v.Full[0] {
+				return nil, false
+			}
+			switch variant {
+			case 1:
+				printable := true
+				for _, ch := range v.Body {
+					if !(ch >= 'a' && ch <= 'z' || ch >= 'A' && ch <= 'Z' || ch >= '0' && ch <= '9' || ch == ' ' || ch == '-' || ch == '.') {
+						printable = false
+					}
+				}
+				if v.Full[0] == 0x13 {
+					tbs[off] = 0x0c
+					return tbs, true
+				}
+				if v.Full[0] == 0x0c && printable && len(v.Body) > 0 {
+					tbs[off] = 0x13
+					return tbs, true
+				}
+			case 2:
+				for i, ch := range v.Body {
+					if ch >= 'a' && ch <= 'z' || ch >= 'A' && ch <= 'Z' {
+						tbs[off+v.HeaderLen+i] ^= 0x20
+						return tbs, true
+					}
+				}
+			}
+		}
+	}
+	return nil, false
+}
+
+const rule = "certificates created by CreateCertificate from the C04 template generator (pool keys RSA/ECDSA/Ed25519, requested algorithms incl. MD5/SHA1/PSS) in four modes (self-signed, self-issued but signed by another key, issued by a parent, signed by its own key with an issuer that is a near-variant of the subject: other string type or one letter's case), optionally re-assembled with another version field (absent, 0..3, 100) and re-signed with the standard library, optionally with one byte flipped (in the signature, in the subject, anywhere); every variant ParseCertificate accepts is compared with an independent TLV walk + std hashes + std signature verification. Non-trivial: self-issued-but-not-self-signed, a transformed variant, or a non-RSA-2048 key; distinct by case hash"
 
 func build(c Case, r *kit.R) []byte {
 	subj := keys.Get(c.SubjectKey)
@@ -145,6 +205,20 @@ func build(c Case, r *kit.R) []byte {
 		} else {
 			b = pki.ResignTBS(p.TBSWith(int64(c.Version), p.ExtFulls()), signer)
 			r.Class(fmt.Sprintf("version-field=%d", c.Version))
+		}
+	}
+	if c.Mode == 3 {
+		p, err := certgen.Split(b)
+		if err != nil {
+			r.Failf("C06:oracle-cannot-split", "the TLV walker cannot decompose a library-created certificate: %v", err)
+		}
+		if !bytes.Equal(p.InnerAlg.Full, pki.DefaultSigAlgDER(signer)) {
+			r.Class("issuer-variant-skipped(non-default-alg)")
+		} else if tbs, ok := nearVariantIssuer(p, c.IssuerVariant); ok {
+			b = pki.ResignTBS(tbs, signer) // genuinely signed by its own key, issuer != subject
+			r.Class(fmt.Sprintf("own-key-signed-issuer-variant=%d", c.IssuerVariant))
+		} else {
+			r.Class("issuer-variant-not-applicable")
 		}
 	}
 	if c.FlipRegion != 0 && c.FlipXor != 0 {
@@ -190,7 +264,7 @@ func check(c Case, r *kit.R) {
 		return
 	}
 	_, selfIssued, selfSigned, decided := oracle(r, b, cert)
-	transformed := c.Version != -2 || (c.FlipRegion != 0 && c.FlipXor != 0)
+	transformed := c.Version != -2 || (c.FlipRegion != 0 && c.FlipXor != 0) || c.Mode == 3
 	switch {
 	case !decided:
 		r.Class("self-signed-undecided")
@@ -223,10 +297,13 @@ func check(c Case, r *kit.R) {
 func gen(t *rapid.T) Case {
 	var c Case
 	c.SubjectKey = certgen.GenSignerKey(t, "subject-key")
-	c.Mode = rapid.SampledFrom([]int{0, 0, 1, 1, 2}).Draw(t, "mode")
+	c.Mode = rapid.SampledFrom([]int{0, 0, 1, 1, 2, 3, 3}).Draw(t, "mode")
+	if c.Mode == 3 {
+		c.IssuerVariant = rapid.SampledFrom([]int{1, 1, 2}).Draw(t, "issuer-variant")
+	}
 	c.T = certgen.GenCert(t, "t", certgen.GenOpts{Density: rapid.SampledFrom([]int{10, 30, 60}).Draw(t, "density"), Overrides: true})
 	signer := keys.Get(c.SubjectKey)
-	if c.Mode != 0 {
+	if c.Mode == 1 || c.Mode == 2 {
 		c.ParentKey = certgen.GenSignerKey(t, "parent-key")
 		for c.Mode == 1 && c.ParentKey == c.SubjectKey {
 			c.ParentKey = certgen.GenSignerKey(t, "parent-key")
@@ -376,9 +453,12 @@ type CTCase struct {
 	SubjectKey int           `json:"subject_key"`
 	SignerKey  int           `json:"signer_key"`
 	SCTs       []certgen.SCT `json:"scts"`
+	// PoisonNonCritical: encode the poison extension without the critical flag (the parser
+	// still treats it as the CT poison and reports a precertificate).
+	PoisonNonCritical bool `json:"poison_non_critical,omitempty"`
 }
 
-const ruleCT = "a canonical certificate (created by CreateCertificate with the key's default algorithm from the C04 template generator, 0..n extensions) and, for EVERY position 0..n of its extension list, three twins re-assembled with the der package and re-signed with the standard library: CT poison inserted there, an SCT-list extension (1-3 generated SCTs) inserted there, and both (poison at i, SCT list before/after it and at both ends); all must parse, have the same FingerprintNoCT as the CT-free certificate, and that value must be SHA-256 of the CT-free TBS bytes. Non-trivial: >= 1 other extension; distinct by case hash"
+const ruleCT = "a canonical certificate (created by CreateCertificate with the key's default algorithm from the C04 template generator, 0..n extensions) and, for EVERY position 0..n of its extension list, three twins re-assembled with the der package and re-signed with the standard library: CT poison (critical, or in 35% of cases non-critical) inserted there, an SCT-list extension (1-3 generated SCTs) inserted there, and both (poison at i, SCT list before/after it and at both ends); all must parse, have the same FingerprintNoCT as the CT-free certificate, and that value must be SHA-256 of the CT-free TBS bytes. Non-trivial: >= 1 other extension; distinct by case hash"
 
 func checkCT(c CTCase, r *kit.R) {
 	subj, signer := keys.Get(c.SubjectKey), keys.Get(c.SignerKey)
@@ -409,7 +489,12 @@ func checkCT(c CTCase, r *kit.R) {
 	}
 	exts := p.ExtFulls()
 	n := len(exts)
-	poison, sct := certgen.PoisonExtDER(), certgen.SCTListExtDER(c.SCTs)
+	poison, sct := certgen.PoisonExtDERCritical(!c.PoisonNonCritical), certgen.SCTListExtDER(c.SCTs)
+	if c.PoisonNonCritical {
+		r.Class("poison-non-critical")
+	} else {
+		r.Class("poison-critical")
+	}
 	ins := func(l [][]byte, i int, e []byte) [][]byte {
 		out := append([][]byte{}, l[:i]...)
 		out = append(out, e)
@@ -464,6 +549,7 @@ func genCT(t *rapid.T) CTCase {
 	}
 	c.T = certgen.GenCert(t, "t", certgen.GenOpts{Density: rapid.SampledFrom([]int{0, 10, 30, 60}).Draw(t, "density"), OldTimes: true})
 	c.T.SigAlg = 0
+	c.PoisonNonCritical = certgen.Chance(t, "poison-non-critical", 35)
 	n := rapid.IntRange(1, 3).Draw(t, "nsct")
 	for i := 0; i < n; i++ {
 		c.SCTs = append(c.SCTs, certgen.SCT{
@@ -481,7 +567,7 @@ func genCT(t *rapid.T) CTCase {
 func TestPropNoCT(t *testing.T) {
 	kit.Run(t, kit.Spec[CTCase]{ID: "C06", Name: "noct", Rule: ruleCT, Gen: genCT, Check: checkCT, Quick: 250, Thorough: 2500,
 		Assumptions: []string{
-			"'canonically encoded' = produced by CreateCertificate (DER, v3, default signature algorithm); the twins differ from it only by the inserted CT extension(s) (critical poison with NULL value; SCT list as OCTET STRING in OCTET STRING) and the signature",
+			"'canonically encoded' = produced by CreateCertificate (DER, v3, default signature algorithm); the twins differ from it only by the inserted CT extension(s) (poison with NULL value, critical or not; SCT list as OCTET STRING in OCTET STRING) and the signature",
 			"templates here do not themselves carry CT extensions",
 		}})
 }
